@@ -357,6 +357,9 @@ def run(rep):
         rep.guarded("R-C12-abs", one)
     rep.guarded("R-C12-chunk", rule_chunk)
     rep.guarded("R-C12-sync", rule_sync)
+    import shares
+    shares.agree(rep, "'the next call consumes / produces exactly the new size': the accepted chunk size is what the getters and the validation use")
+    shares.provision(rep, ("SincFixedOut",), "an accepted chunk-size or ratio change must leave a request the next call can work with")
     rep.floor("R-C12-abs", 1 + 4 * 7)
     rep.floor("R-C12-rel", 4)
     rep.floor("R-C12-chunk", 2 + 5 + 2 * 6)
